@@ -605,6 +605,10 @@ def run(ctx):
     r5_no_stale_key_state(Relabel(ctx, 'C02.R10'))
     roles = DeleteRoles(ctx.corpus)
     ctx.analysed(roles.fn, *roles.fn.all_nested())
+    from .shared import stale_loop_variables
+
+    _gc = [ctx.corpus.func('repository', 'Repository.clean'), roles.fn, ctx.corpus.func('repository', 'Repository._load_snapshots')]
+    stale_loop_variables(ctx, 'C02.R1', _gc + [n for g in _gc for n in g.all_nested()], 'reference / keep set')
     sub = r1_keep_set(ctx, roles)
     r1_clean_all(ctx)
     r2_unfiltered(ctx)
